@@ -244,6 +244,8 @@ def native_lfsr(variant):
   def LfsrLength(seq, n):
     if not isinstance(seq, (bytes, bytearray)):
       raise TypeError('bytes expected')
+    if not isinstance(n, int) or not -2**31 <= n < 2**31:
+      raise TypeError('n does not fit a C int (pybind11 rejects it)')
     return fn(bytes(seq), len(seq), int(n))
 
   return LfsrLength
